@@ -3,7 +3,8 @@
     delivered streams, and transparency of the threaded stages. *)
 From Coq Require Import Sorting.Sorted.
 From Coq Require Import Sorting.Permutation.
-From TU Require Import Base C06_Model C06_Top C08_EndToEnd C08_Model C08_Proofs C08_Check Pipe_Model Pipe_Proofs Pipe_Proofs2 Pipe_Proofs3 C05_Model C05_Proofs C09_Model C09_Proofs.
+From TU Require C07_Model.
+From TU Require Import Base C06_Model C06_Top C08_EndToEnd C08_Sources C08_Model C08_Proofs C08_Check Pipe_Model Pipe_Proofs Pipe_Proofs2 Pipe_Proofs3 C05_Model C05_Proofs C09_Model C09_Proofs.
 
 (** which global indices a rank selects *)
 Theorem sel_mem : forall lim skip ff rank W N i, 1 <= W ->
@@ -130,6 +131,22 @@ Theorem world_batches_wellformed : forall (D B : Type) (data : list (option D)) 
   Forall (fun b => 1 < length b -> limit size ty b <= Nat.max blim 1) (nth r bss []).
 Proof. exact @world_batches_wellformed_l. Qed.
 Print Assumptions world_batches_wellformed.
+
+(** Generator included (C07 composed): for every strategy, generator oracle, source files, world size,
+    batching configuration and batching oracle per rank, with a limit that does not cut the stream and no skip,
+    the batches of all ranks hold — each exactly once — the processed item of every position of the generator's
+    output that parses and whose pipeline result is Ok; and those positions are the lines of the source files,
+    each exactly once and in per-source order. *)
+Theorem world_covers_sources : forall (A D B : Type) (parse : nat -> A -> option D) (g : nat -> D -> option B)
+    (size : nat * B -> nat) s o (srcs : list (list A)) out sort shuffle prefetch blim ty os lim W bss,
+  srcs <> [] -> C07_Model.run_gen s o srcs = C07_Model.Ok out -> length out <= lim -> 1 <= W ->
+  world_batches (data_of parse out) g size sort shuffle prefetch blim ty os lim 0 0 W bss ->
+  Permutation (concat (concat bss)) (keep_some (map (item_at (data_of parse out) g) (seq 0 (length out)))) /\
+  length out = C07_Model.total_len srcs /\
+  (forall j, C07_Model.proj j out = nth j srcs []) /\
+  Forall (fun p => fst p < length srcs) out.
+Proof. exact @world_covers_sources_l. Qed.
+Print Assumptions world_covers_sources.
 
 (** Non-vacuity: two ranks over five lines (line 2 does not parse, the pipeline fails on position 3),
     batches of at most two items *)
